@@ -198,6 +198,12 @@ def cset(x, name, value, context=None):
     return x
 
 
+def cget(x, name="v", context=None):
+    """read a variable through context.vars"""
+    _rec("cget", x, name)
+    return [x, context.vars.get(name)]
+
+
 def cmut(x, name="lv", item="c", context=None):
     """in-place mutation of a (mutable) variable value reached through context.vars"""
     _rec("cmut", x, name, item)
@@ -305,7 +311,7 @@ def _vocab():
         V("req", req, "data"), V("coll", coll, "data"), V("mix", mix, "data"), V("ctx", ctx, "data"), V("cmid", cmid, "data"),
         V("ident", ident, "data"),
         V("st", st, "state"), V("let", let, "state"), V("state_variable", state_variable, "state"), V("appendvar", appendvar, "state"),
-        V("cset", cset, "data"), V("cmut", cmut, "data"), V("ns", ns, "state"),
+        V("cset", cset, "data"), V("cmut", cmut, "data"), V("cget", cget, "data"), V("ns", ns, "state"),
         V("sec", sec, "data", ns="second"), V("add", add_second, "data", ns="second"),
         V("fail", fail, "data"), V("vol", vol, "data", volatile=True), V("nocache", nocache, "data"), V("nocache2", nocache2, "state"),
         V("push", push, "data"), V("setkey", setkey, "data"), V("poplen", poplen, "data"),
@@ -1039,6 +1045,7 @@ DATA_ACTIONS = {
     "appendvar": [(), ("lv", "j"), ("v", "j")],
     "cset": [("w", "cw"), ("v", "cv")],
     "cmut": [(), ("v",)],
+    "cget": [(), ("w",), ("lv",)],
     "ns": [("second",), (), ("second", "nosuch")],
     "sec": [(), ("2",)],
     "fail": [(), ("why",)],
@@ -1101,9 +1108,9 @@ def action_texts(table, links, max_link_variants=None):
 CORE_FIRST = ["one", "num-3", "hello", "lst-a-b", "dct", "vfirst"]
 CORE_MID = ["add-2", "cat-" + ESC, "coll-a-", "let-v-new", "state_variable-v", "st-s", "ns-second", "sec", "fail",
             "vol-1", "nocache", "push", "setkey", "poplen", "cap", "low", "cset-w-cw", "appendvar", "add-~X~add-1~E", "add-~X~/num-3~E",
-            "cat-~X~state_variable-v~E", "sub", "add", "nosuch", "add-x", "nocache2",
+            "cat-~X~state_variable-v~E", "sub", "cget", "add", "nosuch", "add-x",
             "coll-~X~let-v-in/state_variable-v~E-~X~state_variable-v~E",
-            "mul-2.5", "let-w-x", "tog-t", "ctx-4", "gen", "req-1", "ident-1", "cmut"]
+            "nocache2", "mul-2.5", "let-w-x", "tog-t", "ctx-4", "gen", "req-1", "ident-1", "cmut"]
 
 
 def all_queries(tier="quick"):
